@@ -159,4 +159,35 @@ theorem Spec.get {a : Nat} {F : Prop} {P : World → Prop} :
     Spec a F P get (fun v w => v.now = w.now ∧ v.facs = w.facs ∧ v.sessions = w.sessions) :=
   Spec.of_still Extends.get Stills.get fun w _ _ _ _ => Or.inr ⟨fun v hv => (by cases hv; exact ⟨rfl, rfl, rfl⟩), fun _ => ⟨w, rfl⟩⟩
 
+/-- use a lemma about `x` as the last step, keeping the stable precondition for the result. -/
+theorem Spec.frame {α : Type} {a : Nat} {F : Prop} {P P' : World → Prop} {x : M α} {G1 G : α → World → Prop}
+    (hx : Spec a F P' x G1) (hpre : ∀ w, Inv w → P w → P' w) (hS : Stable P)
+    (hg : ∀ v w, Inv w → P w → G1 v w → G v w) : Spec a F P x G := by
+  refine ⟨hx.ext, fun w ha hi hnf hp => ?_⟩
+  have e1 := hx.ext w
+  exact (hx.post w ha hi hnf (hpre w hi hp)).imp id
+    fun ⟨i, f', g, s⟩ => ⟨i, f', fun v hv => hg v _ i (hS.st w _ e1 hp) (g v hv), s⟩
+
+theorem Spec.ite {α : Type} {a : Nat} {F : Prop} {P : World → Prop} {x y : M α} {G : α → World → Prop}
+    {c : Prop} [Decidable c] (hx : c → Spec a F P x G) (hy : ¬ c → Spec a F P y G) :
+    Spec a F P (if c then x else y) G := by
+  split
+  · exact hx ‹_›
+  · exact hy ‹_›
+
+/-- extract a world-independent consequence of the precondition. -/
+theorem Spec.of_pre {α : Type} {a : Nat} {F : Prop} {P : World → Prop} {x : M α} {G : α → World → Prop}
+    {C : Prop} (he : Extends x) (hc : ∀ w, Inv w → P w → C) (h : C → Spec a F P x G) : Spec a F P x G :=
+  ⟨he, fun w ha hi hnf hp => (h (hc w hi hp)).post w ha hi hnf hp⟩
+
+theorem Spec.exists_pre {α : Type} {ι : Sort _} {a : Nat} {F : Prop} {P : ι → World → Prop} {x : M α}
+    {G : α → World → Prop} (he : Extends x) (h : ∀ i, Spec a F (P i) x G) : Spec a F (fun w => ∃ i, P i w) x G :=
+  ⟨he, fun w ha hi hnf ⟨i, hp⟩ => (h i).post w ha hi hnf hp⟩
+
+/-- in fault-free mode an impossible branch; in safety mode nothing to show beyond `Ext`. -/
+theorem Spec.of_mode {α : Type} {a : Nat} {F : Prop} {P : World → Prop} {x : M α} {G : α → World → Prop}
+    (he : Extends x) (h : F → Spec a F P x G) (h' : ¬ F → Spec a F P x G) : Spec a F P x G :=
+  ⟨he, fun w ha hi hnf hp => (Classical.em F).elim (fun hF => (h hF).post w ha hi hnf hp)
+    (fun hF => (h' hF).post w ha hi hnf hp)⟩
+
 end AsherahVerif.Env
